@@ -75,6 +75,8 @@ func main() {
 		res = runCfgHash(a)
 	case "inject":
 		res = runInject(a)
+	case "loop":
+		res = runLoop(a)
 	default:
 		fmt.Fprintln(os.Stderr, "unknown engine", a.engine)
 		os.Exit(2)
